@@ -362,7 +362,7 @@ func (s *zzSeq) iterate(tag string) {
 	// Coldest / Hottest run maintenance first: with a size bound and a symbolic clock that is a sweep
 	// (C13's subject), so the orderings are checked when the clock is concrete or the cache is unbounded
 	// (the orderings belong to C01/C03/C05; the event and statistics checks C06/C07/C20 leave them out)
-	orderings := !(len(tag) >= 3 && (tag[:3] == "c06" || tag[:3] == "c07" || tag[:3] == "c20" || tag[:3] == "c17"))
+	orderings := !(len(tag) >= 3 && (tag[:3] == "c04" || tag[:3] == "c06" || tag[:3] == "c07" || tag[:3] == "c20" || tag[:3] == "c17"))
 	if orderings && (s.concreteClock || s.env.cfg.bound == 0 || !s.withExp()) {
 		for _, hot := range []bool{false, true} {
 			var seenO [zzNK + 1]int
